@@ -10,8 +10,16 @@ MIXED = {"EGGLOG_PARALLEL_TABLE_OP_CUTOFF": "0", "EGGLOG_PARALLEL_REBUILD_CUTOFF
 CONFIGS = [(family.SEQ, None), (T(4), None), (T(2), sess.PAR0), (T(4), sess.PAR0), (T(8), MIXED)]
 
 
+def scale_sessions(tier):
+    from . import scale, core
+    return scale.sessions(tier, core.seed() + 9)
+
+
 def check(tier):
-    return family.check_family(
-        "C06", tier, "c06", [("P3", "MC_EggAbs.cfg", 3, 3), ("P4", "MC_EggAbs.cfg", 3, 3)], PROFILES, CONFIGS, (25, 300),
+    return family.check_groups(
+        "C06", tier,
+        [dict(fam="c06", model_specs=[("P3", "MC_EggAbs.cfg", 3, 3), ("P4", "MC_EggAbs.cfg", 3, 3)], profiles=PROFILES, configs=CONFIGS, nrand=(20, 300)),
+         dict(fam="c06scale", model_specs=[], profiles=[], nrand=(0, 0), extra=scale_sessions,
+              configs=[(T(2), sess.PAR0), (T(4), sess.PAR0), (T(8), MIXED)])],
         ["OS schedules are sampled, not enumerated (the interleavings of the primitives are explored in the C17/C19 models)",
          "every configuration must be accepted by the same deterministic specification, which makes all of them equal up to renaming of ids"])
